@@ -711,17 +711,19 @@ def run_check(engine, prop, tier, master, runs=None, budget_s=None, out=print):
         out('runs matching known findings: %s' % json.dumps(known_hits, sort_keys=True))
     if reach_gaps:
         out('reach gaps (probes never hit): %s' % ', '.join(reach_gaps))
+    for h in harness_errors[:5]:
+        out('HARNESS-ERROR %s' % h)
+    if violation_lines:
+        # a violation that was minimised and reproduced from its replay file in a fresh interpreter stands on its own,
+        # whatever else went wrong in the batch (e.g. memory-dependent crashes of the same broken code)
+        for l in violation_lines:
+            out(l)
+        return 1
     if harness_errors:
-        for h in harness_errors[:5]:
-            out('HARNESS-ERROR %s' % h)
         return 2
     if acc.evaluations < 2:
         out('HARNESS-ERROR fewer than 2 runs were executed')
         return 2
-    if violation_lines:
-        for l in violation_lines:
-            out(l)
-        return 1
     return 0
 
 
